@@ -46,13 +46,87 @@ pub fn run_history(
     n: u64,
     key_at: &mut dyn FnMut(u64, &mut Vec<u8>) -> u64,
 ) -> Result<Trace, String> {
+    run_history_sink(geom, f, l, is_set, n, key_at, Pol::All)
+}
+
+/// How the discarding sink answers write calls. The sink itself never
+/// allocates (an `io::Error` made from a bare `ErrorKind` owns no heap).
+#[derive(Clone, Copy, Debug, PartialEq, Eq, PartialOrd, Ord)]
+pub enum Pol {
+    /// accepts every buffer completely (like `io::sink()`)
+    All,
+    /// accepts at most this many bytes per call
+    Cap(usize),
+    /// every other call returns Interrupted, the others accept at most 3 bytes
+    Intr,
+    /// never accepts bytes across a multiple of this block size
+    Page(usize),
+}
+
+impl Pol {
+    pub fn code(self) -> u64 {
+        match self {
+            Pol::All => 0,
+            Pol::Cap(c) => 1_000 + c as u64,
+            Pol::Intr => 1,
+            Pol::Page(p) => 1_000_000 + p as u64,
+        }
+    }
+    pub fn from_code(c: u64) -> Pol {
+        match c {
+            0 => Pol::All,
+            1 => Pol::Intr,
+            c if c >= 1_000_000 => Pol::Page((c - 1_000_000) as usize),
+            c => Pol::Cap((c - 1_000) as usize),
+        }
+    }
+}
+
+pub struct PolSink {
+    pol: Pol,
+    calls: u64,
+    accepted: u64,
+}
+
+impl std::io::Write for PolSink {
+    fn write(&mut self, buf: &[u8]) -> std::io::Result<usize> {
+        self.calls += 1;
+        let n = match self.pol {
+            Pol::All => buf.len(),
+            Pol::Cap(c) => buf.len().min(c),
+            Pol::Intr => {
+                if self.calls % 2 == 1 {
+                    return Err(std::io::Error::from(std::io::ErrorKind::Interrupted));
+                }
+                buf.len().min(3)
+            }
+            Pol::Page(p) => buf.len().min(p - (self.accepted as usize % p)),
+        };
+        self.accepted += n as u64;
+        Ok(n)
+    }
+    fn flush(&mut self) -> std::io::Result<()> {
+        Ok(())
+    }
+}
+
+pub fn run_history_sink(
+    geom: Geom,
+    f: usize,
+    l: usize,
+    is_set: bool,
+    n: u64,
+    key_at: &mut dyn FnMut(u64, &mut Vec<u8>) -> u64,
+    pol: Pol,
+) -> Result<Trace, String> {
     guard(|| {
         let mut keybuf: Vec<u8> = Vec::with_capacity(l + 8);
         let x0 = alloc::live();
+        let sink = PolSink { pol, calls: 0, accepted: 0 };
         let mut b = if geom == (10_000, 2) {
-            raw::Builder::new_type(std::io::sink(), 0)
+            raw::Builder::new_type(sink, 0)
         } else {
-            raw::Builder::verif_new_with_registry(std::io::sink(), 0, geom.0, geom.1)
+            raw::Builder::verif_new_with_registry(sink, 0, geom.0, geom.1)
         }
         .map_err(|e| format!("{:?}", e))?;
         let after_new = alloc::live() - x0;
@@ -257,8 +331,12 @@ pub fn run_bulk_ladder(geom: Geom, n: u64, mode: u8) -> Result<Trace, String> {
 }
 
 pub fn run_ladder(geom: Geom, is_set: bool, n: u64) -> Result<Trace, String> {
+    run_ladder_sink(geom, is_set, n, Pol::All)
+}
+
+pub fn run_ladder_sink(geom: Geom, is_set: bool, n: u64, pol: Pol) -> Result<Trace, String> {
     let mut state = 0u64;
-    run_history(geom, 4, 16, is_set, n, &mut |i, out| ladder_key(&mut state, i, out))
+    run_history_sink(geom, 4, 16, is_set, n, &mut |i, out| ladder_key(&mut state, i, out), pol)
 }
 
 /// Wide-node ladder: `p` prefixes of 3 bytes, each followed by 40 distinct
@@ -330,7 +408,7 @@ pub fn replay(case: &Value) -> Result<String, String> {
         return run_ladder_kind(geom, is_set, n, kind as u8).map(|t| format!("peak live {} bytes for N={}", t.max_live, n));
     }
     if let Some(n) = case["ladder_n"].as_u64() {
-        run_ladder(geom, is_set, n).map(|t| format!("peak live {} bytes for N={}", t.max_live, n))
+        run_ladder_sink(geom, is_set, n, Pol::from_code(case["sink_policy"].as_u64().unwrap_or(0))).map(|t| format!("peak live {} bytes for N={}", t.max_live, n))
     } else {
         run_small(geom, is_set, &kvs_from(&case["kvs"])).map(|t| format!("max live {} bytes", t.max_live))
     }
@@ -339,7 +417,7 @@ pub fn replay(case: &Value) -> Result<String, String> {
 pub fn plan(tier: Tier) -> Plan {
     let mut p = Plan::new("C13", "exploration");
     let thorough = tier.thorough();
-    p.rule = "counting allocator with per-thread counters; the builder streams to a discarding sink. (1) exhaustive: under the tiny cache geometries 1x1, 1x2, 2x2, 3x3 (cache saturated after a handful of inserts, i.e. the regime 'evicting on every miss' is reachable) every subset of U_ab3 as set and map, and every prefix of the sorted universes {a,b}^<=6 and {a,b,c,d}^<=4: after (and at the peak during) EVERY insert and finish the builder's live heap <= B(rows,cols,F,L) = heap_after_new + 2*(cells*(max(4,2F)*24+32) + (L+2)*(max(4,2F)*24+32) + [2(L+2)*80 if L+2>64] + 2L) + 4096, which has no term in the number of keys; after finish everything is freed. (2) finite ladder (not exhaustive): 16-byte keys over {a..d} with irregular gaps and non-shareable values, sets and maps, N in {1e4,1e5,2e5,4e5} (thorough: 1e6,4e6,1e7), geometries 1x1, 2x2, 100x2 and the default 10000x2, two ladders with varying key lengths (alternating 16/28-byte keys; keys that are proper prefixes of their successors), and a wide-node ladder (250..5000 (thorough 100000) distinct nodes of fan-out 40, 100, 256 and of widths cycling through 33..64, the node form with an index table), and the fixed ladder through ONE bulk call (raw/Map/Set extend_iter with an exact size hint and extend_stream, N up to 400000, thorough 2 million; a second, empty bulk call afterwards): peak live <= B for every N and, for geometries with <= 200 cells, |peak(N_{i+1}) - peak(N_i)| <= 1 KiB. non-trivial = histories with >= 8 keys".into();
+    p.rule = "counting allocator with per-thread counters; the builder streams to a discarding sink (the ladder also to discarding sinks that accept at most 1 / 5 bytes per call, interrupt every other call, or never accept across a 4096-byte boundary). (1) exhaustive: under the tiny cache geometries 1x1, 1x2, 2x2, 3x3 (cache saturated after a handful of inserts, i.e. the regime 'evicting on every miss' is reachable) every subset of U_ab3 as set and map, and every prefix of the sorted universes {a,b}^<=6 and {a,b,c,d}^<=4: after (and at the peak during) EVERY insert and finish the builder's live heap <= B(rows,cols,F,L) = heap_after_new + 2*(cells*(max(4,2F)*24+32) + (L+2)*(max(4,2F)*24+32) + [2(L+2)*80 if L+2>64] + 2L) + 4096, which has no term in the number of keys; after finish everything is freed. (2) finite ladder (not exhaustive): 16-byte keys over {a..d} with irregular gaps and non-shareable values, sets and maps, N in {1e4,1e5,2e5,4e5} (thorough: 1e6,4e6,1e7), geometries 1x1, 2x2, 100x2 and the default 10000x2, two ladders with varying key lengths (alternating 16/28-byte keys; keys that are proper prefixes of their successors), and a wide-node ladder (250..5000 (thorough 100000) distinct nodes of fan-out 40, 100, 256 and of widths cycling through 33..64, the node form with an index table), and the fixed ladder through ONE bulk call (raw/Map/Set extend_iter with an exact size hint and extend_stream, N up to 400000, thorough 2 million; a second, empty bulk call afterwards): peak live <= B for every N and, for geometries with <= 200 cells, |peak(N_{i+1}) - peak(N_i)| <= 1 KiB. non-trivial = histories with >= 8 keys".into();
     p.assumptions = vec![
         "'for all N' beyond the ladder is not decided by a bounded exploration; the ladder is a finite family and is reported as such".into(),
         "heap attributable to the builder = sum over its API calls of the change of the thread's live bytes (harness allocations are outside the measured calls)".into(),
@@ -472,6 +550,59 @@ pub fn plan(tier: Tier) -> Plan {
                 }));
             }
         }
+    }
+    // the ladder under sinks that accept writes reluctantly (the heap must not depend on the sink either)
+    let pol_peaks: Arc<Mutex<BTreeMap<(Pol, Geom, bool, u64), i64>>> = Arc::new(Mutex::new(BTreeMap::new()));
+    let pols = [Pol::Cap(1), Pol::Cap(5), Pol::Intr, Pol::Page(4096)];
+    for pol in pols {
+        for g in [(2usize, 2usize), (100, 2)] {
+            for is_set in [true, false] {
+                for &n in &ns {
+                    if n > 1_000_000 { continue; }
+                    let pol_peaks = pol_peaks.clone();
+                    p.units.push(unit("ladder-under-reluctant-sinks-(finite-family)", format!("ladder {:?} {:?} set={} N={}", pol, g, is_set, n), move |st, rep| {
+                        st.evals += 1;
+                        st.states += n + 2;
+                        st.transitions += n + 2;
+                        st.nontrivial += 1;
+                        match run_ladder_sink(g, is_set, n, pol) {
+                            Ok(t) => {
+                                st.count("reluctant_sink_ladder_points", 1);
+                                pol_peaks.lock().unwrap().insert((pol, g, is_set, n), t.max_live);
+                                if t.after_finish != 0 {
+                                    rep.violation(format!("ladder leak {:?} {:?} {} {}", pol, g, is_set, n), format!("{} bytes still live after finish", t.after_finish), json!({"ladder_n": n, "geom": [g.0, g.1], "set": is_set, "sink_policy": pol.code()}));
+                                }
+                            }
+                            Err(msg) => rep.violation(format!("ladder {:?} {:?} set={} N={}", pol, g, is_set, n), format!("sink policy {:?}: {}", pol, msg), json!({"ladder_n": n, "geom": [g.0, g.1], "set": is_set, "sink_policy": pol.code()})),
+                        }
+                    }));
+                }
+            }
+        }
+    }
+    {
+        let ns4 = ns.clone();
+        p.finish_extra.push(Box::new(move |st, rep| {
+            let pk = pol_peaks.lock().unwrap();
+            st.samples.push(json!({"reluctant_sink_ladder_peaks": pk.iter().map(|((pol, g, s, n), v)| json!({"sink": format!("{:?}", pol), "geom": format!("{}x{}", g.0, g.1), "set": s, "N": n, "peak_live_bytes": v})).collect::<Vec<_>>()}));
+            for pol in pols {
+                for g in [(2usize, 2usize), (100, 2)] {
+                    for is_set in [true, false] {
+                        for w in ns4.windows(2) {
+                            if let (Some(a), Some(b)) = (pk.get(&(pol, g, is_set, w[0])), pk.get(&(pol, g, is_set, w[1]))) {
+                                if (a - b).abs() > 1024 {
+                                    rep.violation(
+                                        format!("plateau {:?} {:?} set={} N={}..{}", pol, g, is_set, w[0], w[1]),
+                                        format!("sink policy {:?}: peak live heap is {} bytes for N={} but {} for N={} (cache {}x{}): it grows with the number of keys / bytes emitted", pol, a, w[0], b, w[1], g.0, g.1),
+                                        json!({"ladder_n": w[1], "geom": [g.0, g.1], "set": is_set, "sink_policy": pol.code()}),
+                                    );
+                                }
+                            }
+                        }
+                    }
+                }
+            }
+        }));
     }
     // ladders with varying key lengths (kind 1: alternating lengths, kind 2: prefix pairs)
     let kind_peaks: Arc<Mutex<BTreeMap<(u8, Geom, bool, u64), i64>>> = Arc::new(Mutex::new(BTreeMap::new()));
